@@ -12,7 +12,7 @@ pub static PROP: Prop = Prop {
     id: "C19",
     run,
     replay,
-    rule: "generated Unicode strings (XML specials, leading/trailing/repeated spaces, TAB/LF/CR, combining marks, astral characters, empty, up to 32767 units in the thorough tier) x storage form per format. xlsx: shared / inline / t=\"str\"; plain <t>, 1-5 rich runs cut at generated points, phonetic run + phoneticPr; entities vs hex vs decimal character references vs CDATA; xml:space; unused and EMPTY shared items (<si/>, <si><t/></si>, <si><t></t></si>, phonetic-only) placed before and between used items so that index alignment is observable; prefixed and pretty-printed parts. Oracle: exact string equality at the cell through worksheet_range and worksheet_range_ref. Non-trivial = the string has edge white space, an XML-special or astral character AND is stored in a non-plain form (rich runs, phonetic data, character references/CDATA, or behind an empty shared item); distinct by serialized case.",
+    rule: "(xlsb: BrtSSTItem plain / with rich+phonetic tails, BrtCellSt, BrtFmlaString; xls: SST 8/16-bit, rich+ExtRst with cuts and packing change, LABEL, FORMULA+STRING; ods: office:string-value, text:p with literal spaces / text:s / text:tab / text:line-break / text:span / several paragraphs, three escape styles) generated Unicode strings (XML specials, leading/trailing/repeated spaces, TAB/LF/CR, combining marks, astral characters, empty, up to 32767 units in the thorough tier) x storage form per format. xlsx: shared / inline / t=\"str\"; plain <t>, 1-5 rich runs cut at generated points, phonetic run + phoneticPr; entities vs hex vs decimal character references vs CDATA; xml:space; unused and EMPTY shared items (<si/>, <si><t/></si>, <si><t></t></si>, phonetic-only) placed before and between used items so that index alignment is observable; prefixed and pretty-printed parts. Oracle: exact string equality at the cell through worksheet_range and worksheet_range_ref. Non-trivial = the string has edge white space, an XML-special or astral character AND is stored in a non-plain form (rich runs, phonetic data, character references/CDATA, or behind an empty shared item); distinct by serialized case.",
 };
 
 // ---------------------------------------------------------------------------------------------
@@ -158,6 +158,17 @@ fn run(ctx: &mut Ctx) {
     if !ctx.quick() {
         ctx.run("xlsx-long", 3000, || xcase_strategy(32_767), oracle_xlsx);
     }
+    let n = ctx.n(2500, 50_000);
+    ctx.run("xlsb", n, || bin_case(40, 4), oracle_xlsb);
+    let n = ctx.n(2500, 50_000);
+    ctx.run("xls", n, || bin_case(40, 5), oracle_xls);
+    let n = ctx.n(2500, 50_000);
+    ctx.run("ods", n, ods_case, oracle_ods);
+    if !ctx.quick() {
+        ctx.run("xlsb-long", 1500, || bin_case(32_767, 4), oracle_xlsb);
+        ctx.run("xls-long", 1500, || bin_case(4000, 5), oracle_xls);
+    }
+    ctx.assumptions.push("xls: LABEL and STRING records hold at most 4000 units (one record); cuts never fall inside a surrogate pair. ods: runs of two or more spaces and edge spaces are written as text:s (a conformant consumer collapses literal ones); empty strings are not stored (indistinguishable from an empty cell)".into());
     ctx.assumptions.push("xlsx: strings are restricted to XML 1.0 characters; a string with edge white space is written with xml:space=\"preserve\"; the OOXML _xHHHH_ escape convention is not generated".into());
 }
 
@@ -165,6 +176,214 @@ fn replay(sub: &str, case: &serde_json::Value) -> Option<Report> {
     match sub {
         "xlsx" | "xlsx-long" => replay_as::<XCase>(case, oracle_xlsx),
         "xlsx-strict" => replay_as::<XCase>(case, oracle_xlsx_strict),
+        "xlsb" | "xlsb-long" => replay_as::<BinCase>(case, oracle_xlsb),
+        "xls" | "xls-long" => replay_as::<BinCase>(case, oracle_xls),
+        "ods" => replay_as::<OdsCase>(case, oracle_ods),
         _ => None,
     }
+}
+
+// ---------------------------------------------------------------------------------------------
+// xlsb / xls / ods
+
+use crate::enc::biff8 as b8;
+use crate::enc::ods as od;
+use crate::enc::xlsb as bb;
+use crate::model::strings::utf16_string;
+
+#[derive(Debug, Clone, Serialize, Deserialize)]
+pub struct BinItem {
+    pub text: String,
+    /// xlsb: 0 shared item, 1 shared item with rich runs + phonetic tail, 2 BrtCellSt, 3 BrtFmlaString
+    /// xls:  0 SST 16-bit, 1 SST 8-bit when possible, 2 SST rich+ext with cuts, 3 LABEL, 4 FORMULA+STRING
+    pub form: u8,
+    pub knob: u16,
+}
+
+#[derive(Debug, Clone, Serialize, Deserialize)]
+pub struct BinCase {
+    pub items: Vec<BinItem>,
+}
+
+fn bin_case(max_len: usize, forms: u8) -> impl Strategy<Value = BinCase> {
+    proptest::collection::vec((utf16_string(max_len), 0..forms, any::<u16>()).prop_map(|(text, form, knob)| BinItem { text, form, knob }), 1..8).prop_map(|items| BinCase { items })
+}
+
+fn label_text(rep: &mut Report, prefix: &str, text: &str, nonplain: bool) -> bool {
+    rep.label_if(text.is_empty(), "empty-string");
+    rep.label_if(text.chars().any(|c| c as u32 > 0xFFFF), "astral");
+    rep.label_if(text.len() > 1000, "long");
+    rep.label_if(text.chars().any(|c| (c as u32) < 0x20), &format!("{prefix}:control-char"));
+    (has_edge_space(text) || has_special(text)) && nonplain
+}
+
+fn oracle_xlsb(case: &BinCase) -> Report {
+    let mut rep = Report::new();
+    let mut sst = vec![];
+    let mut rows = vec![];
+    let mut nt = false;
+    for (i, it) in case.items.iter().enumerate() {
+        let rec = match it.form {
+            0 | 1 => {
+                sst.push(bb::BbSstItem { text: it.text.clone(), runs: if it.form == 1 { 1 + (it.knob % 3) as u8 } else { 0 }, phonetic: (it.form == 1 && it.knob % 2 == 0).then(|| "フリガナ".to_string()) });
+                bb::BbRec::Isst(sst.len() as u32 - 1)
+            }
+            2 => bb::BbRec::St(it.text.clone()),
+            _ => bb::BbRec::FmlaString(it.text.clone(), vec![0x1E, 1, 0]),
+        };
+        rep.label(["xlsb:BrtSSTItem", "xlsb:BrtSSTItem+rich+phonetic", "xlsb:BrtCellSt", "xlsb:BrtFmlaString"][it.form as usize % 4]);
+        nt |= label_text(&mut rep, "xlsb", &it.text, it.form != 2);
+        rows.push(bb::BbRow { r: i as u32 + 2, before: vec![], cells: vec![bb::BbCell { col: 1 + (i % 3) as u32, style: 0, rec }] });
+    }
+    let doc = bb::XlsbDoc { sheets: vec![bb::BbSheet { name: "T".into(), rows, ..Default::default() }], sst, ..Default::default() };
+    crate::props::c03::read_and_check(&doc, "xlsb", &mut rep);
+    rep.nontrivial = nt;
+    rep
+}
+
+fn oracle_xls(case: &BinCase) -> Report {
+    let mut rep = Report::new();
+    let mut sst: Vec<b8::SstString> = vec![];
+    let mut cells = vec![];
+    let mut nt = false;
+    for (i, it) in case.items.iter().enumerate() {
+        let u = b8::units(&it.text);
+        let rec = match it.form {
+            0 | 1 | 2 => {
+                let mut s = b8::SstString { units: u.clone(), wide: it.form == 0, ..Default::default() };
+                if it.form == 2 {
+                    s.runs = 1 + it.knob % 3;
+                    s.ext = it.knob % 17;
+                    s.cut_before = it.knob % 2 == 0;
+                    s.cut_after_chars = it.knob % 3 == 0;
+                    // one character cut with a packing change, outside surrogate pairs
+                    let legal: Vec<usize> = (1..u.len()).filter(|k| !(0xD800..0xDC00).contains(&u[*k - 1])).collect();
+                    if !legal.is_empty() {
+                        let k = legal[it.knob as usize % legal.len()];
+                        s.segments = vec![(k as u16, it.knob % 5 < 2), ((u.len() - k) as u16, it.knob % 5 >= 2)];
+                    }
+                }
+                sst.push(s);
+                b8::BRec::LabelSst(sst.len() as u32 - 1)
+            }
+            3 => b8::BRec::Label(it.text.clone(), it.knob % 2 == 0),
+            _ => b8::BRec::Formula { value: if it.text.is_empty() { b8::FVal::EmptyStr } else { b8::FVal::Str(it.text.clone(), it.knob % 2 == 0) }, rgce: vec![0x1E, 1, 0] },
+        };
+        rep.label(["xls:SST-16bit", "xls:SST-8bit-if-possible", "xls:SST-rich+ext+cuts", "xls:LABEL", "xls:FORMULA+STRING"][it.form as usize % 5]);
+        nt |= label_text(&mut rep, "xls", &it.text, it.form == 2 || it.form == 4);
+        cells.push(b8::BCell { row: i as u16 + 1, col: (i % 4) as u16, ixfe: 0, rec });
+    }
+    let doc = b8::XlsDoc { sheets: vec![b8::BSheet { name: "T".into(), cells, dimensions: 1, ..Default::default() }], sst, xfs: vec![0], codepage: Some(1200), ..Default::default() };
+    crate::props::c02::read_and_check(&doc, "xls", &mut rep);
+    rep.nontrivial = nt;
+    rep
+}
+
+#[derive(Debug, Clone, Serialize, Deserialize)]
+pub struct OdsItem {
+    pub text: String,
+    /// 0 office:string-value, 1 text:p content
+    pub form: u8,
+    /// bit 0: new lines as separate paragraphs (else text:line-break), bit 1: first space of an interior run literal,
+    /// bit 2: wrap pieces into spans, bit 3: always write text:c
+    pub knob: u8,
+    pub esc: u8,
+}
+
+#[derive(Debug, Clone, Serialize, Deserialize)]
+pub struct OdsCase {
+    pub items: Vec<OdsItem>,
+}
+
+/// split a string into ODF paragraphs / pieces under the knobs
+fn ods_content(text: &str, knob: u8) -> Vec<Vec<od::TextPiece>> {
+    let paragraphs: Vec<&str> = if knob & 1 != 0 { text.split('\n').collect() } else { vec![text] };
+    let mut out = vec![];
+    for p in paragraphs {
+        let chars: Vec<char> = p.chars().collect();
+        let mut pieces: Vec<od::TextPiece> = vec![];
+        let mut i = 0;
+        let mut buf = String::new();
+        let flush = |buf: &mut String, pieces: &mut Vec<od::TextPiece>| {
+            if !buf.is_empty() {
+                pieces.push(od::TextPiece::Text(std::mem::take(buf)));
+            }
+        };
+        while i < chars.len() {
+            match chars[i] {
+                ' ' => {
+                    let mut n = 1;
+                    while i + n < chars.len() && chars[i + n] == ' ' {
+                        n += 1;
+                    }
+                    let at_edge = i == 0 || i + n == chars.len();
+                    if n == 1 && !at_edge {
+                        buf.push(' ');
+                    } else if !at_edge && knob & 2 != 0 {
+                        // a literal space followed by the rest as a space element
+                        buf.push(' ');
+                        flush(&mut buf, &mut pieces);
+                        pieces.push(od::TextPiece::Spaces(n as u32 - 1, knob & 8 != 0));
+                    } else {
+                        flush(&mut buf, &mut pieces);
+                        pieces.push(od::TextPiece::Spaces(n as u32, knob & 8 != 0));
+                    }
+                    i += n;
+                    continue;
+                }
+                '\t' => {
+                    flush(&mut buf, &mut pieces);
+                    pieces.push(od::TextPiece::Tab);
+                }
+                '\n' => {
+                    flush(&mut buf, &mut pieces);
+                    pieces.push(od::TextPiece::LineBreak);
+                }
+                c => buf.push(c),
+            }
+            i += 1;
+        }
+        flush(&mut buf, &mut pieces);
+        if knob & 4 != 0 && pieces.len() >= 2 {
+            // wrap the middle pieces into a span
+            let last = pieces.pop().unwrap();
+            let first = pieces.remove(0);
+            pieces = vec![first, od::TextPiece::Span(pieces), last];
+        }
+        out.push(pieces);
+    }
+    out
+}
+
+fn ods_case() -> impl Strategy<Value = OdsCase> {
+    proptest::collection::vec((xml_string(40), 0u8..2, any::<u8>(), 0u8..3).prop_map(|(text, form, knob, esc)| OdsItem { text, form, knob, esc }), 1..8).prop_map(|items| OdsCase { items })
+}
+
+fn oracle_ods(case: &OdsCase) -> Report {
+    let mut rep = Report::new();
+    let mut grid = std::collections::BTreeMap::new();
+    let mut nt = false;
+    for (i, it) in case.items.iter().enumerate() {
+        // an empty string cell is not distinguishable from an empty cell in ods: skip those
+        if it.text.is_empty() {
+            continue;
+        }
+        let value = if it.form == 0 { od::OVal::StrAttr(it.text.clone()) } else { od::OVal::StrContent(ods_content(&it.text, it.knob)) };
+        let nonplain = it.form == 1 && (it.text.contains("  ") || has_edge_space(&it.text) || it.text.contains(['\n', '\t']) || it.knob & 4 != 0 || it.esc != 0);
+        rep.label(if it.form == 0 { "ods:string-value-attribute" } else { "ods:text:p-content" });
+        if let od::OVal::StrContent(p) = &value {
+            rep.label_if(p.len() > 1, "ods:several-paragraphs");
+            let flat = format!("{p:?}");
+            rep.label_if(flat.contains("Spaces"), "ods:text:s");
+            rep.label_if(flat.contains("Tab"), "ods:text:tab");
+            rep.label_if(flat.contains("LineBreak"), "ods:text:line-break");
+            rep.label_if(flat.contains("Span"), "ods:text:span");
+        }
+        nt |= (has_edge_space(&it.text) || has_special(&it.text)) && nonplain;
+        grid.insert(od::key((i as u32 + 1, (i % 3) as u32 + 1)), od::OCell { value, formula: None, annotation: None, covered: false, esc: it.esc });
+    }
+    let doc = od::OdsDoc { sheets: vec![od::OSheet { name: "T".into(), grid, ..Default::default() }], ..Default::default() };
+    crate::props::c04::read_and_check(&doc, "ods", &mut rep);
+    rep.nontrivial = nt;
+    rep
 }
